@@ -59,6 +59,17 @@ def in_bounds(h: str) -> bool:
     return True
 
 
+def str_eq(a, b) -> bool:
+    """Character-wise equality: CrossHair 0.0.110 answers False for `==` between two symbolic strings whose code points
+    are held in differently shaped containers (measured: equal statements compared unequal)."""
+    if len(a) != len(b):
+        return False
+    for x, y in zip(a, b):
+        if x != y:
+            return False
+    return True
+
+
 def _gen(trees):
     return [D.generate(t) if t is not None else "" for t in trees]
 
@@ -81,8 +92,9 @@ def verdict(h: str) -> str:
         s1 = _gen(trees)
     except OWN:
         return "ok"
-    except Exception:
-        return "ok"  # internal exceptions are C05's business, not C01's
+    except Exception as e:
+        # internal exceptions are C05's business, not C01's (mode "both" is used to collect findings in one sweep)
+        return ("leak:" + type(e).__name__) if MODE == "both" else "ok"
     try:
         t2 = [D.parse(s)[0] if s else None for s in s1]
         s2 = _gen(t2)
@@ -90,8 +102,11 @@ def verdict(h: str) -> str:
         return "s1-does-not-parse:" + type(e).__name__
     except Exception as e:
         return "s1-raises:" + type(e).__name__
-    if s1 != s2:
+    if len(s1) != len(s2):
         return "not-a-fixpoint"
+    for a, b in zip(s1, s2):
+        if not str_eq(a, b):
+            return "not-a-fixpoint"
     return "ok"
 
 
@@ -118,7 +133,7 @@ def replay(h: str):
 
     sql = PRE + h + POST
     d = DIALECT or None
-    if MODE == "errors":
+    if MODE in ("errors", "both"):
         try:
             sqlglot.transpile(sql, read=d, write=d)
         except OWN:
@@ -128,7 +143,8 @@ def replay(h: str):
 
             tb = traceback.extract_tb(e.__traceback__)[-1]
             return False, f"dialect={DIALECT or 'base'}: transpile({sql!r}) leaks {type(e).__name__}: {str(e)[:120]!r} at {os.path.basename(tb.filename)}:{tb.lineno} ({tb.name})"
-        return True, "returns"
+        if MODE == "errors":
+            return True, "returns"
     try:
         s1 = sqlglot.transpile(sql, read=d, write=d)
     except Exception:
